@@ -95,6 +95,14 @@ def run(rep, tier, seed):
                 miss = [unhex(x) for x in mman if x not in man]; extra = [unhex(x) for x in man if x not in mman]
                 bad.append(("manifest-wrong", "acyclic include graph: the manifest %s" % ("; ".join(
                     (["omits referenced file(s) %s" % miss] if miss else []) + (["lists file(s) never referenced %s" % extra] if extra else []))), c)); continue
+            if not cyc:
+                # the search for a failing input: in an acyclic graph a marker that names an existing file by its absolute path
+                # (no search-folder rule involved) must be gone from the result
+                unhex = lambda x: bytes.fromhex(x).decode("latin-1") if x != "-" else ""
+                itext, mtext = unhex(it), unhex(mt)
+                left = [unhex(kv.split("=")[0]) for kv in c.split(" ")[4:] if "{{%s}}" % unhex(kv.split("=")[0]) in itext and "{{%s}}" % unhex(kv.split("=")[0]) not in mtext]
+                if left:
+                    bad.append(("marker-left-for-existing-file", "acyclic include graph: the marker of existing file(s) %s is left in place instead of being replaced by the file's content" % left[:3], c)); continue
             bad.append(("model-vs-impl", "correspondence broken: TranscludeModel.v vs transclude.c", c)); continue
         ncorr += 1
     rep.cov["evaluations"] = len(cases)
@@ -125,3 +133,6 @@ def replay(rep, r):
     print("model", m[:600]); print("impl ", i[:600])
     if m.replace(" !", "") != i:
         rep.violation(r.get("key", "model-vs-impl"), "model and implementation differ", r)
+    # (replay of marker-left-for-existing-file: the implementation's text, decoded)
+    try: print("impl text:", bytes.fromhex(i.split(" ")[0]).decode("latin-1")[:600])
+    except Exception: pass
